@@ -20,7 +20,7 @@ CHECKS = {
    note='Likelihood alphabet uses only exactly rounded arithmetic so scalar and vectorised evaluation agree bit for bit. ' + A_NOTE),
  'C05': dict(engine='smc', level='model_checking', ref='3/C05',
    tech='explicit-state model checking: every batch boundary as stop point x {continue in memory, resume from file} x slicings by n_like_max and virtual timeouts; terminal-result agreement and no-point-twice',
-   text='Every batch boundary of each scenario is a stop point with both continuations; every sequence of stops with up to 1 (quick) / 2 (thorough) resumes and arbitrarily many in-memory stops is enumerated, with coarser slicings (two-batch slices, timeout-limited slices on a virtual clock, finish) from the visited states; all terminal states of a scenario must show one bit-identical observation (posterior incl. blobs, log_z, n_eff, n_like) and no point may be evaluated twice on any path.',
+   text='Every batch boundary of each scenario is a stop point with both continuations; every sequence of stops with up to 1 (quick) / 2 (thorough) resumes and arbitrarily many in-memory stops is enumerated, with coarser slicings (two-batch slices, timeout-limited slices on a virtual clock, finish) from the visited states; all terminal states of a scenario must show one bit-identical observation (posterior incl. blobs, log_z, n_eff, n_like) and no point may be evaluated twice on any path; on a 536-batch run EVERY batch boundary is resumed and followed for one batch (linear sweep).',
    note='Mid-step checkpoints that only a kill can expose are C06\'s. ' + A_NOTE),
  'C06': dict(engine='crashmc', level='fault_enumeration', ref='3/C06',
    tech='exhaustive crash-point enumeration: strace-recorded syscall history of the real write path replayed into a file-system model, every syscall boundary (thorough: every page-torn write) checked by a recovery oracle; model validated by real SIGKILL injection',
@@ -32,7 +32,7 @@ CHECKS = {
    note='Enlargement >= 1+1e-6, non-degenerate point sets; sampled points come from seeded PCG64 streams.'),
  'C08': dict(engine='envmc', level='exploration', ref='3/C08',
    tech='exhaustive enumeration of scripted random-generator answers: every lattice probe x proposing member x all acceptance thresholds driven through the real Union.sample pipeline',
-   text='Decides uniformity exactly instead of statistically: each probe is proposed from every member containing it and must be kept in exactly M/m of M equally spaced thresholds; multinomial weights equal member volumes; counters count proposed and rejected; closed-form volumes match det A; pool merging equals the workers\' reports; also after HDF5 round trips.',
+   text='Decides uniformity exactly instead of statistically: each probe is proposed from every member containing it and must be kept in exactly M/m of M equally spaced thresholds; multinomial weights equal member volumes; counters count proposed and rejected; closed-form volumes match det A; pool merging equals the workers\' reports; also after HDF5 round trips (incl. a 12-member union) and after trim().',
    note='Probes within 1e-6 of a surface dropped; uniformity of numpy\'s own normal/uniform streams trusted.'),
  'C09': dict(engine='boundmc', level='model_checking', ref='3/C09',
    tech='every bound state of the C07 state enumeration written to an in-memory HDF5 group and read back (behavioural equality under a cloned generator) plus an exhaustive operation-history search over {sample(1), sample(137), sample(1500), update, reset} on the incremental-update path',
@@ -56,7 +56,7 @@ CHECKS = {
    note='GMM seed scripted from a 2-3 value alphabet.'),
  'C14': dict(engine='envmc', level='exploration', ref='3/C14',
    tech='exhaustive enumeration of the stochastic-rounding threshold (64 scripted answers of sampler.rng.random) x boosts over weight vectors of real sampler states',
-   text='For weight vectors of real sampler states (incl. -inf samples, both discard views, blobs) and boosts {0.3,1,2.5,10}: multiplicity in {floor r, floor r + 1} in every execution, exact expectation on the threshold lattice, no repeats for boost<=1, order/likelihood/blob preservation, equal normalised weights, weighted posterior unchanged.',
+   text='For weight vectors of real sampler states, live and resumed from the checkpoint (incl. -inf samples, both discard views, blobs) and boosts {0.3,1,2.5,10}: multiplicity in {floor r, floor r + 1} in every execution, exact expectation on the threshold lattice, no repeats for boost<=1, order/likelihood/blob preservation, equal normalised weights, weighted posterior unchanged.',
    note='Rows with r within 1e-9 of an integer excluded from the multiplicity clause.'),
  'C15': dict(engine='enum', level='exploration', ref='3/C15',
    tech='bounded-exhaustive enumeration of all declaration programs up to length 4/5 (incl. every malformed declaration at every position) against a reference interpreter',
@@ -64,7 +64,7 @@ CHECKS = {
    note='Distributions limited to uniform and scipy.stats.norm; ppf compared at rtol 1e-9.'),
  'C16': dict(engine='enum', level='exploration', ref='3/C16',
    tech='exhaustive enumeration of float neighbourhoods (+-8/64 ulps) of all critical values x centres x periodic subsets, plus an end-to-end scripted-generator witness',
-   text='Range [0,1), untouched non-periodic coordinates, round trip within 4 ulp on the circle, largest gap across the boundary for all multisets of size <=4/5 on a grid; witness through NautilusBound.sample.',
+   text='Range [0,1), untouched non-periodic coordinates, round trip within 4 ulp on the circle, largest gap across the boundary for all multisets of size <=4/6 on a grid and for all ordered periodic index sets of d=3; witnesses through NautilusBound.sample (scripted proposals at the wrap position; serial and pool sampling).',
    note='d = 2, 3.'),
 }
 NOT_YET = {}
